@@ -138,3 +138,75 @@ def match_schema(path, keys, sections):
 
 def fmt(path):
     return '/'.join(path)
+
+
+# ---------------------------------------------------------------------------
+# Interprocedural binding of parameters to input sub-dictionaries
+
+BASE_ROOTS = {'inp.data', 'dassh_input.data', 'dassh_inp.data',
+              'input_obj.data', 'dassh_input_obj.data'}
+
+
+def roots_for(fi):
+    roots = set(BASE_ROOTS)
+    if fi.cls is not None and fi.cls.name in ('DASSH_Input',
+                                              'DASSHPower_Input'):
+        roots.add('self.data')
+    if fi.mod.name == 'dassh.read_input' and fi.cls is None \
+            and 'data' in fi.params:
+        roots.add('data')
+    return roots
+
+
+def propagate_params(repo, resolver, max_iter=6):
+    """{func.full: {param: [paths]}}: parameters that receive a sub-dict of
+    the parsed input at some call site (fixpoint over the call graph)."""
+    from .resolve import bind_args
+    bound = {}
+    for _ in range(max_iter):
+        changed = False
+        for fi in repo.all_funcs():
+            if fi.mod.name.startswith('dassh.plot') or \
+                    fi.mod.name.startswith('dassh.py4c'):
+                continue
+            roots = roots_for(fi)
+            al = dict(bound.get(fi.full, {}))
+            al.update(local_aliases_with(fi.node, roots, al))
+            for c in U.walk_no_nested(fi.node):
+                if not isinstance(c, ast.Call):
+                    continue
+                cs, how = resolver.callees(fi, c)
+                if how in ('by-name', 'external', 'unresolved'):
+                    continue
+                for callee in cs:
+                    for p, a in bind_args(c, callee).items():
+                        paths = resolve(fi.node, a, roots, al)
+                        if paths is None:
+                            continue
+                        cur = bound.setdefault(callee.full, {})
+                        new = sorted(set(cur.get(p, []) + paths))
+                        if new != cur.get(p):
+                            cur[p] = new
+                            changed = True
+        if not changed:
+            break
+    return bound
+
+
+def local_aliases_with(func_node, roots, seed):
+    al = dict(seed)
+    for _ in range(4):
+        changed = False
+        for n in U.walk_no_nested(func_node):
+            if isinstance(n, ast.Assign) and len(n.targets) == 1 and \
+                    isinstance(n.targets[0], ast.Name):
+                p = resolve(func_node, n.value, roots, al)
+                nm = n.targets[0].id
+                if p is not None:
+                    new = sorted(set(al.get(nm, []) + p))
+                    if new != al.get(nm):
+                        al[nm] = new
+                        changed = True
+        if not changed:
+            break
+    return al
